@@ -885,7 +885,8 @@ URLS = ["http://example.com/a?b#c", "", "http://[x", "http://[::1", "//[", "http
         "/relative", "x" * 70000, "http://\x00/", "ht\ttp://a\r\n/", "http://a@[b/", "http://\u0663/"]
 HOSTS = ["example.com", "www.example.com:8080", "static.example.com", "", "[", "[::1]", "[::1", "a:b", "exa mple",
          "x/y?z#w", "\u2175", "a\x00", "[::1]x", "\u2100", "a\uff03b", "[v1.x]", "h" * 70000, "\u0663", "a@[b"]
-CL_VALUES = ["0", "12", "abc", "\u0663", "-1", DIGITS5000, " 12 ", "1_0", "+5", "1e3", "\x00", "\u0661\u0662\u0663", "",
+CL_VALUES = ["0", "12", "abc", "\u0663", "-1", DIGITS5000, str(2 ** 63), str(2 ** 63 - 1), str(2 ** 64), "9" * 30,
+             str(2 ** 31), str(2 ** 32), " 12 ", "1_0", "+5", "1e3", "\x00", "\u0661\u0662\u0663", "",
              "12, 12", "0x10", "\xb2"]
 COOKIES = ["a=b", "", "a=b; c", "\"\\", "a=\"\\777\"", "a=\"\\9", "=", ";;=;", "a=\"\\" + "\\" * 2000, "a=" + "\"" * 9999,
            "\u0663=\u0663", "a=\"\\0\\1\\2\"", "a=\"\\400\"", "\x00=\x00", "a=b; " * 1500, "a=\"\\089\"", "a=\"\\389\\128\""]
@@ -1052,6 +1053,12 @@ def library(tier):
             yield mk("form", iface, headers=[("content-type", ct)], body=b"a=1")
         yield mk("json", iface, body=b"{}")
         yield mk("form", iface, body=b"a=1")
+        # the body accessors under every announced length (absurd, negative, huge, non-numeric ones included)
+        for v in CL_VALUES:
+            yield mk("body", iface, headers=[("content-length", v)], body=b"hello world")
+            yield mk("json", iface, headers=[("content-type", ct_json()), ("content-length", v)], body=b"{}")
+            yield mk("form", iface, headers=[("content-type", ct_url()), ("content-length", v)], body=b"a=1")
+            yield mk("form", iface, headers=[("content-type", ct_mp()), ("content-length", v)], body=multipart_body())
         for body in JSON_BODIES:
             yield mk("json", iface, headers=[("content-type", ct_json())], body=body)
         for cs in CHARSETS:
